@@ -240,4 +240,58 @@ theorem getBackend_eq (arg : BackendArg) (cfg : Config) :
                   | some c => .ok c | none => .error .valueError) := by
   cases arg <;> simp [getBackend, getDefaultBackend, byName_eq]
 
+set_option linter.unusedSimpArgs false in
+theorem backend_spec (arg : BackendArg) (cfg : Config) :
+    (∀ cls, getBackend arg cfg = .ok cls ↔
+      match arg with
+      | .cls c => cls = c
+      | .name s => classOfName s = some cls
+      | .none => classOfName cfg.default_backend = some cls) ∧
+    (∀ e, getBackend arg cfg = .error e ↔
+      e = .valueError ∧
+      match arg with
+      | .cls _ => False
+      | .name s => classOfName s = none
+      | .none => classOfName cfg.default_backend = none) := by
+  rw [getBackend_eq]
+  cases arg with
+  | cls c => exact ⟨fun cls => by simp [eq_comm], fun e => by simp⟩
+  | name s =>
+    cases h : classOfName s with
+    | none => exact ⟨fun cls => by simp [h], fun e => by simp [h, eq_comm]⟩
+    | some c => exact ⟨fun cls => by simp [h, eq_comm], fun e => by simp [h]⟩
+  | none =>
+    cases h : classOfName cfg.default_backend with
+    | none => exact ⟨fun cls => by simp [h], fun e => by simp [h, eq_comm]⟩
+    | some c => exact ⟨fun cls => by simp [h, eq_comm], fun e => by simp [h]⟩
+
+theorem default_spec (env : Env) (avail : Avail) (cfg : Config) (h : Config.init true env avail = .ok cfg) :
+    cfg.default_backend =
+      match env "CSPUZ_DEFAULT_BACKEND" with
+      | some x => if x = "auto" then firstAvailable avail else x
+      | none => firstAvailable avail := by
+  rw [init_eq] at h
+  unfold expectedConfig at h
+  simp only [if_true] at h
+  split at h
+  · rename_i c hc
+    cases h
+    split at hc
+    · cases hc
+      simp only [defaultBackend]
+      cases env "CSPUZ_DEFAULT_BACKEND" <;> rfl
+    · cases hc
+  · cases h
+
+theorem init_false_indep (env env' : Env) (avail : Avail) :
+    Config.init false env avail = Config.init false env' avail := by
+  rw [init_eq, init_eq]; rfl
+
+theorem init_false_eq (env : Env) (avail : Avail) :
+    Config.init false env avail =
+      .ok { default_backend := firstAvailable avail, backend_path := none,
+            use_graph_primitive := supportsGraphPrimitive (firstAvailable avail),
+            use_graph_division_primitive := supportsDivisionPrimitive (firstAvailable avail) } := by
+  rw [init_eq]; rfl
+
 end Cspuz.Proofs.C20
